@@ -379,6 +379,8 @@ func main() {
 		dumpTE()
 	case "firstop":
 		firstOpChild()
+	case "firstgenop":
+		firstGenChild()
 	}
 	c := mon.Init(*propID)
 	if *mode == "firstuse" {
@@ -387,6 +389,9 @@ func main() {
 	}
 	if *mode == "firstops" {
 		firstOps(c)
+		if *propID == "C18" {
+			firstGen(c)
+		}
 		c.Finish()
 	}
 	w := &world{c: c, race: *mode == "race", procs: []int{1, 2, 3, 8, 16}, rng: gen.New(c.Seed, "c18")}
